@@ -546,6 +546,7 @@ impl Machine {
                     }
                     match head {
                         "quote" => return Ok(self.datum(&v[1])),
+                        "if" if v.len() < 3 || v.len() > 4 => return Err(ErrKind::Syntax("UnexpectedEnd".into())),
                         "if" => {
                             let t = self.eval(&v[1], &cenv)?;
                             if t.truthy() {
